@@ -39,8 +39,26 @@ def shape_of(case):
     return "+".join(kinds) if kinds else "empty"
 
 
+class Vacuity:
+    """Vacuity guards are evaluated at the end, and only when nothing was violated: a run in which the real code
+    crashed or failed everywhere must end as exit 1 (violations), not as exit 2 (scenario not reached)."""
+
+    def __init__(self):
+        self.items = []
+
+    def expect(self, name, n):
+        self.items.append((name, n))
+
+    def settle(self, ctx):
+        if ctx.violations:
+            return
+        for name, n in self.items:
+            ctx.expect_vacuity(name, n)
+
+
 def main(ctx):
     thorough = ctx.tier == "thorough"
+    vac = Vacuity()
     ctx.build_cmds(["obiuniq", "obidemerge"])
     if ctx.replay:
         blob = json.load(open(ctx.replay))
@@ -97,6 +115,11 @@ def main(ctx):
     ctx.rng.shuffle(lib_cases)
     summ = run_replay(ctx, "lib", lib_cases, "lib", runs, procs=8, par=4, extra=["diskevery=%d" % diskevery])
     ctx.extra["library_cases"] = len(lib_cases)
+    # every input permutation (<= 24) of a sample of the bags of 3 and 4 records
+    big = [c for c in allcases if len(c["in"]) >= 3]
+    perm_cases = vlib.sample(ctx.rng, big, 20000 if thorough else 250)
+    run_replay(ctx, "perms", perm_cases, "lib", 1, procs=8, par=4, extra=["diskevery=8", "allperms=1"])
+    ctx.extra["all_permutation_cases"] = len(perm_cases)
     multi = [c for c in allcases if len(c["in"]) >= 2]
     bin_cases = vlib.sample(ctx.rng, multi, 1500 if thorough else 160)
     run_replay(ctx, "bin", bin_cases, "bin", 2 if thorough else 1, procs=1, par=16, extra=["inprocess=1"])
@@ -105,17 +128,26 @@ def main(ctx):
     need = ["lib/mem/cat0/m1/ns0", "lib/disk/cat0/m1/ns0", "lib/mem/cat1/m1/ns1", "lib/disk/cat1/m1/ns1", "lib/mem/cat2/m1/ns0",
             "lib/disk/cat2/m1/ns1", "lib/mem/cat1/m0/ns0", "demerge/-/cat1/m1/ns0", "law/demerge", "law/uniq-demerge-uniq"]
     for n in need:
-        ctx.expect_vacuity("class " + n, ctx.classes.get(n, 0))
-    ctx.expect_vacuity("binary runs on disk", sum(v for k, v in ctx.classes.items() if k.startswith("bin/disk") or k.startswith("law/disk")))
-    ctx.expect_vacuity("binary runs on disk with long sequences", sum(v for k, v in ctx.classes.items() if k.endswith("/bigseq")))
-    ctx.expect_vacuity("binary runs in memory", sum(v for k, v in ctx.classes.items() if k.startswith("bin/mem") or k.startswith("law/mem")))
+        vac.expect("class " + n, ctx.classes.get(n, 0))
+    vac.expect("binary runs on disk", sum(v for k, v in ctx.classes.items() if k.startswith("bin/disk") or k.startswith("law/disk")))
+    vac.expect("binary runs on disk with long sequences", sum(v for k, v in ctx.classes.items() if k.endswith("/bigseq")))
+    vac.expect("binary runs in memory", sum(v for k, v in ctx.classes.items() if k.startswith("bin/mem") or k.startswith("law/mem")))
 
     # T ---------------------------------------------------------------------------------------
     trace = ctx.path("trace.ndjson")
     n = 240 if thorough else 21
-    ctx.harness(["record", "C06", "--out", trace, "--n", n, "--opt", "nbin=%d" % (n // 3), "--opt", "size=1000",
-                 "--opt", "bindir=" + os.path.join(ctx.scratch, "bin"), "--opt", "distbatch=%d" % [7, 50, 2000][ctx.seed % 3]],
-                timeout=1500)
+    p = ctx.harness(["record", "C06", "--out", trace, "--n", n, "--opt", "nbin=%d" % (n // 3), "--opt", "size=1000",
+                     "--opt", "bindir=" + os.path.join(ctx.scratch, "bin"), "--opt", "distbatch=%d" % [7, 50, 2000][ctx.seed % 3]],
+                    timeout=1500, check=False)
+    if p.returncode != 0:
+        err = p.stderr or ""
+        i = max(err.find("panic:"), err.find("fatal error:"))
+        if i < 0:
+            raise vlib.Inconclusive("record C06 failed rc=%d: %s" % (p.returncode, err[-2000:]))
+        # the code under test panicked inside the recording process (no process isolation there)
+        ctx.violation("C06.trace.lib.crash", "record", "IUniqueSequence panicked on a random data set: " + err[i:i + 600], {"seed": ctx.seed})
+        vac.settle(ctx)
+        return ctx.finish()
     events, rejects = ctx.trace_validate("UniqTrace", "UniqTrace.cfg", trace, timeout=2400)
     for r in rejects:
         ev = events[r["l"] - 1]
@@ -127,7 +159,7 @@ def main(ctx):
     for ev in events:
         ops[ev["op"] + "/" + ev["level"]] = ops.get(ev["op"] + "/" + ev["level"], 0) + 1
     for needop in ("uniq/lib", "uniq/bin", "demerge/bin", "law/bin"):
-        ctx.expect_vacuity("trace events " + needop, ops.get(needop, 0))
+        vac.expect("trace events " + needop, ops.get(needop, 0))
     ctx.extra["trace_events"] = ops
     ctx.extra["trace_records"] = sum(len(ev["recs"]) for ev in events)
     e0 = events[0]
@@ -140,5 +172,6 @@ def main(ctx):
         "the on-disk race (chunk file read before its writer closed it) is a scheduling property: it is exercised with long "
         "sequences through the binaries, a miss is possible, a false alarm is not",
     ]
+    vac.settle(ctx)
     return ctx.finish(rule="case = (bag of records, option set) with the output set Uniq.tla requires; each replayed under several "
                            "(permutation, memory/disk, workers, chunk count, batch size) configurations; trace event = one run on ~10^3 records")
